@@ -419,6 +419,19 @@ func (w *walker) expr(e ast.Expr, write bool) {
 				}
 				return
 			}
+			// calls that run user-supplied code (the logger and, through errorf, the OnError hook; the OnServe /
+			// OnDisconnect / OnReconnect hooks): recorded as accesses to the pseudo field "usercode", which the
+			// policy requires to lie outside every critical section of s.mu (user code may re-enter the service)
+			if structOf("", sel.X, w.env) == "Service" {
+				switch sel.Sel.Name {
+				case "errorf", "infof", "tracef", "debugf", "onServe", "onError", "onDisconnect", "onReconnect":
+					reg := 0
+					if w.locked {
+						reg = w.region
+					}
+					w.out = append(w.out, Access{Func: w.fname, Struct: "Service", Field: "usercode", Write: false, Locked: w.locked, Region: reg})
+				}
+			}
 			// method call on a field: s.wg.Add(), s.workcond.Signal(), s.nc.Publish(), s.queryTQ.Add(), qe.sub.Drain()
 			if in, ok := sel.X.(*ast.SelectorExpr); ok {
 				switch in.Sel.Name {
